@@ -8,10 +8,12 @@
 
    Not covered by the theorems (checked on the real code by the harness only): initializer / opset-import /
    function registration, as_function extraction, metadata, progress ("fires when a removable instance
-   exists"), patterns with several output nodes (the model has a single root; see the C07 finding). *)
+   exists"), patterns with several output nodes (the model has a single root; see the C07 finding): for those only
+   the repair step is modelled (stable_sort, C07_sort_ordered / C07_sort_leaves_sorted), not the splice. *)
 From Coq Require Import List String ZArith Bool Permutation.
 Require Import OV.Graph.Syntax OV.Graph.Sem OV.Graph.Names OV.Graph.SemProofs.
 Require Import OV.Rewrite.Apply OV.Rewrite.ApplyProofs OV.Rewrite.KeepProofs OV.Rewrite.PassProofs OV.Rewrite.ApplyExamples.
+Require Import OV.Rewrite.Order OV.Rewrite.OrderProofs OV.Rewrite.OrderExamples.
 Import ListNotations.
 
 (* apply_one_sound: one application at any nesting level (path [] = the main graph or a function body, longer
@@ -204,3 +206,100 @@ Theorem C07_replay_sound_example_keep :
 Proof. exact (fun V sem truth trip of_nat of_bool limit =>
                 conj ex_check_k2 (ex_equiv_hyps_k2 V sem truth trip of_nat of_bool limit)). Qed.
 Print Assumptions C07_replay_sound_example_keep.
+
+(* ---- validity, order part: every container stays topologically ordered -------------------------------------- *)
+(* topo_nodes vis ns: every node of the list reads only names of vis or outputs of earlier nodes; the body of an
+   If/Loop is checked with what is visible at the node holding it (ONNX scoping).  order_okb: the executable
+   conditions of one application -- (1) what remains of the window is ordered (removing rule: movableb, keeping rule:
+   dead names on the root only), (2) the replacement placed RIGHT AFTER THE WINDOW (where apply_nodes puts it) reads only
+   what is visible there and is itself ordered, (3) a name defined in the window and mentioned later is still defined.
+   Not covered: patterns with several output nodes (insertion after the FIRST output node: C07_multi_output_needs_sort
+   shows that the order is lost there; only the repairing sort is modelled), uniqueness of names (wf_graphb, evaluated
+   on the real results). *)
+Theorem C07_apply_keeps_order : forall vis a ns ns',
+  order_okb vis a ns = true -> topo_nodes vis ns = true -> apply_nodes a ns = Some ns' ->
+  topo_nodes vis ns' = true.
+Proof. exact apply_nodes_order. Qed.
+Print Assumptions C07_apply_keeps_order.
+
+(* the first condition is a consequence of a side condition of the soundness theorem *)
+Theorem C07_window_kept_ordered : forall mask win v,
+  movableb mask win = true -> topo_nodes v win = true -> topo_nodes v (unsel mask win) = true.
+Proof. exact unsel_ordered. Qed.
+Print Assumptions C07_window_kept_ordered.
+
+(* at any nesting level: path [] = the main graph or the body of a model-local function, longer paths = If/Loop bodies
+   (of the main graph or of a function); the visible names are accumulated on the way down *)
+Theorem C07_apply_at_keeps_order : forall p a vis g g',
+  order_ok_at vis p a g = true -> topo_graph vis g = true -> apply_at p a g = Some g' ->
+  topo_graph vis g' = true.
+Proof. exact apply_at_order. Qed.
+Print Assumptions C07_apply_at_keeps_order.
+
+(* a pass over one container (ext: initializers registered by the replacements) *)
+Theorem C07_pass_keeps_order : forall ext l g g',
+  order_ok_pass ext l g = true -> topo_graph ext g = true -> apply_pass l g = Some g' ->
+  topo_graph ext g' = true.
+Proof. exact apply_pass_order. Qed.
+Print Assumptions C07_pass_keeps_order.
+
+(* a model = the main graph and the bodies of the model-local functions: whichever container each application of the
+   pass falls into, all containers stay ordered *)
+Theorem C07_model_pass_keeps_order : forall ext l cs cs',
+  order_ok_model ext l cs = true -> model_sorted ext cs = true -> apply_model_pass l cs = Some cs' ->
+  model_sorted ext cs' = true.
+Proof. exact apply_model_order. Qed.
+Print Assumptions C07_model_pass_keeps_order.
+
+(* what the correspondence evaluates on every replayed sweep of the real rewriter *)
+Theorem C07_check_order_sound : forall ext l g g',
+  check_order ext l g = true -> apply_pass (map fst l) g = Some g' -> topo_graph ext g' = true.
+Proof. exact check_order_sound. Qed.
+Print Assumptions C07_check_order_sound.
+
+(* hypotheses satisfiable: non-contiguous match, keeping rule, match in an If branch of a function body of a model *)
+Theorem C07_keeps_order_example_main :
+  topo_nodes ["x"; "y"]%string ex_nodes = true /\ order_okb ["x"; "y"]%string ex_app ex_nodes = true /\
+  topo_nodes ["x"; "y"]%string ex_after = true.
+Proof. exact ex_order_main. Qed.
+Print Assumptions C07_keeps_order_example_main.
+
+Theorem C07_keeps_order_example_keep :
+  topo_nodes ["x"]%string ex_nodes_k2 = true /\ order_okb ["x"]%string ex_app_keep ex_nodes_k2 = true /\
+  topo_nodes ["x"]%string ex_after_k2 = true.
+Proof. exact ex_order_keep. Qed.
+Print Assumptions C07_keeps_order_example_keep.
+
+Theorem C07_keeps_order_example_model :
+  model_sorted [] ex_model = true /\ order_ok_model [] ex_model_pass ex_model = true /\
+  apply_model_pass ex_model_pass ex_model = Some [ex_main; ex_host_after].
+Proof. exact ex_order_model. Qed.
+Print Assumptions C07_keeps_order_example_model.
+
+(* the conditions are not vacuous: a replacement reading a value defined after the window is rejected *)
+Theorem C07_order_conditions_reject :
+  topo_nodes ["x"; "y"]%string ex_nodes = true /\ order_okb ["x"; "y"]%string ex_app_bad ex_nodes = false.
+Proof. exact ex_order_rejects. Qed.
+Print Assumptions C07_order_conditions_reject.
+
+(* patterns with several output nodes: the insertion point of the implementation (after the first output node) does not
+   keep the order -- witness: b = Abs(v); c = Relu(b); a = Neg(v); w = Add(a, c) with the pattern (Neg(v), Abs(v)) -- and
+   the stable topological sort the implementation runs afterwards (model.graph.sort(); function.sort() for every
+   function) returns an ordered permutation, leaving ordered lists unchanged.  Partial: that the sort SUCCEEDS whenever an
+   order exists is not proved; the descent of the sort into subgraphs is not modelled. *)
+Theorem C07_multi_output_needs_sort :
+  topo_nodes ["v"]%string ex_multi_spliced = false /\
+  stable_sort 5 ["v"]%string ex_multi_spliced = Some ex_multi_sorted /\
+  topo_nodes ["v"]%string ex_multi_sorted = true.
+Proof. exact ex_multi_output_needs_sort. Qed.
+Print Assumptions C07_multi_output_needs_sort.
+
+Theorem C07_sort_ordered_partial : forall fuel vis ns l, stable_sort fuel vis ns = Some l ->
+  topo_nodes vis l = true /\ Permutation ns l.
+Proof. exact stable_sort_ordered. Qed.
+Print Assumptions C07_sort_ordered_partial.
+
+Theorem C07_sort_leaves_sorted : forall ns vis, topo_nodes vis ns = true ->
+  stable_sort (List.length ns) vis ns = Some ns.
+Proof. exact stable_sort_sorted_id. Qed.
+Print Assumptions C07_sort_leaves_sorted.
